@@ -29,7 +29,7 @@ MANIFEST = dict(
     technique="Lean 4 proof (three-layer tokenizer/parser round trip, mutual structural induction) + executable statement on the real "
               "output + differential correspondence on the parse + independent html.parser oracle",
 )
-PROP_FILES = ["HtmlVerif/Props/C01.lean"]
+PROP_FILES = ["HtmlVerif/Props/C01.lean", "HtmlVerif/Props/SrcRender.lean"]
 
 ALPHA = ["&", "<", ">", '"', "'", "\r", "\n", ";", "#", "a"]
 LEAVES = [("text", "a"), ("text", "<&>"), ("text", "&amp;"), ("text", ""), ("text", " x "), ("text", "7"), ("meta", 0)]
@@ -329,6 +329,8 @@ def run(tier: str) -> int:
                                                   f"parse to the tree the object now is"))
     ck.tagc("render_after_edits", len(hc))
     ck.exhaustive_scopes.append({"scope": "render – edit in place through the public API – render again histories (stale-state detection)", "exhaustive": False})
+    ck.add_src(['Tag_get_html_string', 'TagList_get_html_string'], quick=250, thorough=2500)
+    ck._src_validate()
     ck.holds_checked = tot["holds"]
     ck.distinct_nontrivial = tot["guard"]
     ck.extra_cov.update(extra_evaluations=tot["n"], exact_agree=tot["exact"], guard_true=tot["guard"],
